@@ -29,24 +29,6 @@ type replayCacheEntry struct {
 	cTime         time.Time // This combines the ticket's CTime and Cusec
 }
 
-func (c *Cache) getClientEntries(cname types.PrincipalName) (clientEntries, bool) {
-	c.mux.RLock()
-	defer c.mux.RUnlock()
-	ce, ok := c.entries[cname.PrincipalNameString()]
-	return ce, ok
-}
-
-func (c *Cache) getClientEntry(cname types.PrincipalName, t time.Time) (replayCacheEntry, bool) {
-	if ce, ok := c.getClientEntries(cname); ok {
-		c.mux.RLock()
-		defer c.mux.RUnlock()
-		if e, ok := ce.replayMap[t]; ok {
-			return e, true
-		}
-	}
-	return replayCacheEntry{}, false
-}
-
 // Instance of the ServiceCache. This needs to be a singleton.
 var replayCache Cache
 var once sync.Once
@@ -71,32 +53,28 @@ func GetReplayCache(d time.Duration) *Cache {
 
 // AddEntry adds an entry to the Cache.
 func (c *Cache) AddEntry(sname types.PrincipalName, a types.Authenticator) {
+	c.mux.Lock()
+	defer c.mux.Unlock()
+	c.addEntry(sname, a)
+}
+
+// addEntry adds an entry to the Cache. The caller must hold the write lock.
+func (c *Cache) addEntry(sname types.PrincipalName, a types.Authenticator) {
 	ct := a.CTime.Add(time.Duration(a.Cusec) * time.Microsecond)
-	if ce, ok := c.getClientEntries(a.CName); ok {
-		c.mux.Lock()
-		defer c.mux.Unlock()
-		ce.replayMap[ct] = replayCacheEntry{
-			presentedTime: time.Now().UTC(),
-			sName:         sname,
-			cTime:         ct,
-		}
-		ce.seqNumber = a.SeqNumber
-		ce.subKey = a.SubKey
-	} else {
-		c.mux.Lock()
-		defer c.mux.Unlock()
-		c.entries[a.CName.PrincipalNameString()] = clientEntries{
-			replayMap: map[time.Time]replayCacheEntry{
-				ct: {
-					presentedTime: time.Now().UTC(),
-					sName:         sname,
-					cTime:         ct,
-				},
-			},
-			seqNumber: a.SeqNumber,
-			subKey:    a.SubKey,
+	ce, ok := c.entries[a.CName.PrincipalNameString()]
+	if !ok {
+		ce = clientEntries{
+			replayMap: make(map[time.Time]replayCacheEntry),
 		}
 	}
+	ce.replayMap[ct] = replayCacheEntry{
+		presentedTime: time.Now().UTC(),
+		sName:         sname,
+		cTime:         ct,
+	}
+	ce.seqNumber = a.SeqNumber
+	ce.subKey = a.SubKey
+	c.entries[a.CName.PrincipalNameString()] = ce
 }
 
 // ClearOldEntries clears entries from the Cache that are older than the duration provided.
@@ -116,13 +94,16 @@ func (c *Cache) ClearOldEntries(d time.Duration) {
 }
 
 // IsReplay tests if the Authenticator provided is a replay within the duration defined. If this is not a replay add the entry to the cache for tracking.
+// The look up and the insertion happen under one lock so that concurrent presentations of the same Authenticator cannot all be told it is not a replay.
 func (c *Cache) IsReplay(sname types.PrincipalName, a types.Authenticator) bool {
 	ct := a.CTime.Add(time.Duration(a.Cusec) * time.Microsecond)
-	if e, ok := c.getClientEntry(a.CName, ct); ok {
-		if e.sName.Equal(sname) {
+	c.mux.Lock()
+	defer c.mux.Unlock()
+	if ce, ok := c.entries[a.CName.PrincipalNameString()]; ok {
+		if e, ok := ce.replayMap[ct]; ok && e.sName.Equal(sname) {
 			return true
 		}
 	}
-	c.AddEntry(sname, a)
+	c.addEntry(sname, a)
 	return false
 }
